@@ -41,10 +41,14 @@ type c03Frame struct {
 	Append   bool    `json:"append"`         // AppendPayload (copy) vs SetPayload (in place)
 	First    int     `json:"first"`          // > 0: the headers are first given a payload of this length, then the real one (a body re-sized on the same header)
 	Keep     bool    `json:"keep,omitempty"` // IPv4 SetPayload only: the view returned for the first body is the one given the real body (IP4.SetPayload sizes its result from the total length, so a view that already has a body may be given another)
-	EchoType byte    `json:"echo_type"`
-	EchoCode byte    `json:"echo_code"`
-	EchoID   uint16  `json:"echo_id"`
-	EchoSeq  uint16  `json:"echo_seq"`
+	// how the network packet gets into the frame: 0 Ether.SetPayload (in place), 1 Ether.AppendPayload of an exact-size copy,
+	// 2 Ether.AppendPayload of a copy that has EthSpare bytes of spare capacity behind it (frames under 60 bytes are padded with zeros)
+	EthAppend int    `json:"eth_append,omitempty"`
+	EthSpare  int    `json:"eth_spare,omitempty"`
+	EchoType  byte   `json:"echo_type"`
+	EchoCode  byte   `json:"echo_code"`
+	EchoID    uint16 `json:"echo_id"`
+	EchoSeq   uint16 `json:"echo_seq"`
 }
 
 func junkBuf(n int, seed byte) []byte {
@@ -137,7 +141,7 @@ func c03BuildFrame(c c03Frame) (frame []byte, tooBig bool, err error) {
 		} else {
 			ip6 = ip6.SetPayload(l4, proto)
 		}
-		ether, err = ether.SetPayload(ip6)
+		ether, err = c03EtherPayload(c, ether, ip6)
 		return ether, false, err
 	}
 	ip4 := packet.EncodeIP4(ether.Payload(), c.TTL, src, dst)
@@ -163,8 +167,31 @@ func c03BuildFrame(c c03Frame) (frame []byte, tooBig bool, err error) {
 	} else {
 		ip4 = ip4.SetPayload(l4, proto)
 	}
-	ether, err = ether.SetPayload(ip4)
+	ether, err = c03EtherPayload(c, ether, ip4)
 	return ether, false, err
+}
+
+func c03EtherPayload(c c03Frame, ether packet.Ether, ip []byte) (packet.Ether, error) {
+	switch c.EthAppend {
+	case 1:
+		return ether.AppendPayload(append(make([]byte, 0, len(ip)), ip...))
+	case 2:
+		return ether.AppendPayload(append(make([]byte, 0, len(ip)+c.EthSpare), ip...))
+	}
+	return ether.SetPayload(ip)
+}
+
+// c03Padded: Ether.AppendPayload pads frames shorter than 60 bytes with zeros.
+func c03Padded(c c03Frame, frame []byte, trailing int) bool {
+	if c.EthAppend == 0 || len(frame) != 60 {
+		return false
+	}
+	for _, b := range frame[60-trailing:] {
+		if b != 0 {
+			return false
+		}
+	}
+	return true
 }
 
 func c03CheckFrame(tb drv.TB, rec *drv.Rec, sub string, c c03Frame) {
@@ -217,7 +244,7 @@ func c03CheckFrame(tb drv.TB, rec *drv.Rec, sub string, c c03Frame) {
 			fail("ip6", fmt.Sprint(e, ev.Type), "ok")
 			return
 		}
-		if v.Trailing != 0 {
+		if v.Trailing != 0 && !c03Padded(c, frame, v.Trailing) {
 			fail("ip6-length-consistency", fmt.Sprintf("PayloadLen %d, %d trailing bytes", v.PayloadLen, v.Trailing), "frame = 14+40+PayloadLen")
 			return
 		}
@@ -232,8 +259,8 @@ func c03CheckFrame(tb drv.TB, rec *drv.Rec, sub string, c c03Frame) {
 			fail("ip4", fmt.Sprint(e, ev.Type), "ok")
 			return
 		}
-		if v.Trailing != 0 {
-			fail("ip4-length-consistency", fmt.Sprintf("TotalLen %d, %d trailing bytes", v.TotalLen, v.Trailing), "frame = 14+TotalLen")
+		if v.Trailing != 0 && !c03Padded(c, frame, v.Trailing) {
+			fail("ip4-length-consistency", fmt.Sprintf("TotalLen %d, %d trailing bytes", v.TotalLen, v.Trailing), "frame = 14+TotalLen (or zero padding up to 60 bytes after Ether.AppendPayload)")
 			return
 		}
 		if !v.ChecksumOK {
@@ -282,6 +309,13 @@ func c03CheckFrame(tb drv.TB, rec *drv.Rec, sub string, c c03Frame) {
 		return
 	}
 	want := ref.Decode(frame)
+	pad := 0 // zero bytes Ether.AppendPayload added behind the network packet (frames under 60 bytes)
+	if c.EthAppend != 0 && len(frame) == 60 {
+		pad = 60 - (hdr + l4hdr + len(c.Payload))
+	}
+	if pad > 0 && want.Lenient {
+		return // an IPv6 packet followed by padding: the statement leaves Parse's verdict open (C02); no UDP datagram over IPv6 is that short
+	}
 	if (perr != nil) != want.Err {
 		fail("parse-encoded-frame", perr, fmt.Sprintf("reference error verdict %v", want.Err))
 		return
@@ -310,14 +344,15 @@ func c03CheckFrame(tb drv.TB, rec *drv.Rec, sub string, c c03Frame) {
 			fail("view-udp", fmt.Sprint(u), fmt.Sprint(c.Sport, c.Dport))
 			return
 		}
-		if ref.UDPClass(c.Sport, c.Dport) != ref.PUDP && !bytes.Equal(fr.Payload(), c.Payload) {
+		// (Frame.Payload runs to the end of the frame: behind a padded datagram it includes the padding, as in C02's reference)
+		if ref.UDPClass(c.Sport, c.Dport) != ref.PUDP && !bytes.Equal(fr.Payload(), append(append([]byte{}, c.Payload...), make([]byte, max(pad, 0))...)) {
 			fail("parse-payload", len(fr.Payload()), len(c.Payload))
 			return
 		}
 	}
 	if !c.V6 && c.SrcMAC[0]&1 == 0 {
 		ip := fr.IP4()
-		if ip == nil || ip.TotalLen() != len(frame)-14 || ip.Src() != src || ip.Dst() != dst || ip.TTL() != int(c.TTL) {
+		if ip == nil || ip.TotalLen() != len(frame)-14-max(pad, 0) || ip.Src() != src || ip.Dst() != dst || ip.TTL() != int(c.TTL) {
 			fail("view-ip4", fmt.Sprint(ip), "drawn values")
 			return
 		}
@@ -796,6 +831,12 @@ func TestC03(t *testing.T) {
 			c.First = rapid.IntRange(1, 300).Draw(t, "first")
 			c.Keep = rapid.Bool().Draw(t, "keep")
 		}
+		if c.Cap >= 60 && rapid.IntRange(0, 2).Draw(t, "ethAppend") == 0 { // the copying variant at the Ethernet layer (it pads to 60 bytes: the buffer must hold that much)
+			c.EthAppend = rapid.IntRange(1, 2).Draw(t, "ethAppendMode")
+			if c.EthAppend == 2 {
+				c.EthSpare = rapid.SampledFrom([]int{1, 8, 64, 1500, 3000}).Draw(t, "ethSpare")
+			}
+		}
 		return c
 	}, func(tb drv.TB, c c03Frame) { c03CheckFrame(tb, rec, "frames", c) })
 
@@ -876,7 +917,7 @@ func TestC03(t *testing.T) {
 				break
 			}
 			total += 1 + l
-			labels = append(labels, rapid.StringOfN(rapid.RuneFrom([]rune("abcdefghijklmnopqrstuvwxyz0123456789-_")), l, l, l).Draw(t, "label"))
+			labels = append(labels, rapid.StringOfN(rapid.RuneFrom([]rune("abcdefghijklmnopqrstuvwxyzABCDEFGHIJKLMNOPQRSTUVWXYZ0123456789-_")), l, l, l).Draw(t, "label"))
 		}
 		if len(labels) == 0 {
 			labels = []string{"a"}
